@@ -4,7 +4,9 @@
 
    The model follows the Rust control flow function by function.  What is abstracted:
    - the output sink: every `write_all` appends to the byte string of the file (BufWriter /
-     File / Vec are all that); I/O errors other than "fewer bytes than asked" are outside.
+     File / Vec are all that); I/O errors other than "fewer bytes than asked" are outside (since
+     52fc470 the real writer is wrapped in FailStop and refuses every byte after its first I/O
+     error; with write_all never failing here that wrapper is the identity).
    - the input: BufReader<R: Read+Seek> is (position, remaining bytes); all seeks of the reader
      go forward (true_up), possibly beyond the end of the file.
    - crc32c::crc32c is external code: the Section variable `crc`; its u32 result type is the
